@@ -506,4 +506,42 @@ func TestC13ManyDashes(t *testing.T) {
 	}
 }
 
+// TestC13LongTags: dashed delimiters around tags whose inside is long (a dash must be found however
+// far its delimiter is from the opening one).
+func TestC13LongTags(t *testing.T) {
+	r := NewRec(t, "C13", "exhaustive: print, if, elseif, set and for tags whose inside holds a string literal of 10..3500 bytes (30 sizes around 240..270, 500..520, 1020..1030 and 4090 total), with each combination of dashes on the tag, between blank-edged texts; oracle as in TestC13Dashes; non-trivial = inside >= 200 bytes")
+	defer r.Flush()
+	r.SetExhaustive()
+	ctx := Ctx{}
+	ctx.Set("a", Int(7))
+	ctx.Set("t", Bool(true))
+	sizes := []int{10, 100, 200, 230, 236, 240, 244, 248, 250, 252, 254, 255, 256, 257, 258, 260, 264, 270, 300, 500, 510, 512, 520, 1000, 1020, 1024, 1030, 2000, 3000, 3500}
+	for _, n := range sizes {
+		long := Str(strings.Repeat("w", n))
+		for kind := 0; kind < 5; kind++ {
+			for bits := 1; bits <= 3; bits++ {
+				var st *S
+				switch kind {
+				case 0:
+					st = &S{K: "print", E: Bin("~", long, Var("a")), D: []int{bits}}
+				case 1:
+					st = &S{K: "if", Conds: []*E{Bin("!=", long, Str("x"))}, Bodies: [][]*S{{Text(" \n in \t ")}}, D: []int{bits, 0}}
+				case 2:
+					st = &S{K: "if", Conds: []*E{Bool(false), Bin("!=", long, Str("x"))}, Bodies: [][]*S{{Text(" n ")}, {Text(" \n in \t ")}}, D: []int{0, bits, 0}}
+				case 3:
+					st = &S{K: "set", Name: "v", E: Bin("~", long, Str("!")), D: []int{bits}}
+				default:
+					st = &S{K: "for", Name: "i", E: List(long, Int(2)), Body: []*S{Text(" \r\n x \n ")}, D: []int{bits, 0}}
+				}
+				body := []*S{Text("A \n "), st, Text(" \t B")}
+				c := C13Case{Ctx: ctx, Set: TSet{{Name: "main", Body: body}}}
+				r.Case(fmt.Sprint(n, kind, bits), n >= 200, fmt.Sprintf("kind %d, inside ~%d bytes, dashes %d", kind, n, bits))
+				if err := checkC13(c); err != nil {
+					r.FailEnumKey(t, "C13.dash", fmt.Sprint(kind, bits), c, err)
+				}
+			}
+		}
+	}
+}
+
 func init() { reg("C13.dash", checkC13) }
